@@ -344,9 +344,7 @@ def mac_exempt(t):
 
 def host_tokens(line, fqdn):
     """hosts of the system's domain: label(.label)*.<domain>, delimited by non-word characters"""
-    if "." not in fqdn:
-        return []
-    dom = fqdn.split(".", 1)[1]
+    dom = system_domain(fqdn)
     if not dom:
         return []
     toks = []
@@ -599,6 +597,30 @@ SECRETS = ["hunter2", "S3cr3t!", "p@ss/w0rd", "abc123", "x", "$1$abc/def", "Tr0u
 PLAIN_PATS = ["DROPME", "secret", "err", "10.", "web1", ":", "x y", "Z"]
 
 
+FIRST_LABELS = ["web01", "node3", "gw", "db-2", "srv_x", "mail", "host9", "localhost", "app-3", "e", "a1", "web1"]
+MID_LABELS = ["corp", "lab", "my-dom", "x", "dc1", "int_net", "abc", "example"]
+LAST_LABELS = ["lan", "local", "internal", "io", "com", "localdomain", "org", "net"]
+
+
+def g_fqdn(rng):
+    """the system's name with 1, 2, 3 or 4+ labels (two labels: at least a quarter), TLD-like last labels,
+    digits / hyphens / underscores inside labels"""
+    if rng.random() < 0.2:
+        return rng.choice(FQDNS)
+    k = rng.random()
+    n = 1 if k < 0.12 else 2 if k < 0.47 else 3 if k < 0.75 else rng.choice([4, 4, 5])
+    labels = [rng.choice(FIRST_LABELS)]
+    if n >= 2:
+        labels += [rng.choice(MID_LABELS) for _ in range(n - 2)] + [rng.choice(LAST_LABELS)]
+    return ".".join(labels)
+
+
+def system_domain(fqdn):
+    """the system's domain, derived independently of the Cleaner: everything after the first label of the
+    FQDN when there is more than one label"""
+    return fqdn.split(".", 1)[1] if "." in fqdn else None
+
+
 def g_ip(rng):
     k = rng.randrange(10)
     if k == 0:
@@ -645,11 +667,11 @@ def g_mac_ctx(rng, m):
 
 def g_host(rng, fqdn):
     short = fqdn.split(".")[0]
-    dom = fqdn.split(".", 1)[1] if "." in fqdn else None
+    dom = system_domain(fqdn)
     k = rng.randrange(14)
     if dom is None:
         return [short, short + "x", "x" + short, short + ".example.org", short][k % 5]
-    other = rng.choice(["db1", "app-3", "x", "www", "a.b", "smtp_1"])
+    other = rng.choice(["db1", "app-3", "x", "www", "a.b", "smtp_1", "db07", "a.b.c", "n-1.dc_2"])
     return [short, fqdn, fqdn, other + "." + dom, other + "." + dom, other + "." + dom + ":8080",
             "http://" + fqdn + "/p", dom, "." + dom, "-" + other + "." + dom, other + "." + dom + ".",
             short + "." + dom + "munity", other + "." + dom.replace(".", "X", 1), "x" + short + "y"][k]
@@ -726,7 +748,7 @@ def g_rx(rng):
 
 
 def g_case(rng, width_ok=True):
-    fqdn = rng.choice(FQDNS)
+    fqdn = g_fqdn(rng)
     obf = rng.random() < 0.8
     cfg = {"obfuscate": obf, "hostname": rng.random() < 0.7, "mac": rng.random() < 0.7, "ipv6": rng.random() < 0.4,
            "fqdn": fqdn, "keywords": None, "patterns": None}
@@ -833,13 +855,16 @@ def recogniser_streams(chk, n):
     a_h = ["web1", ".abc.com", "abc", "com", ".", "-", "_", " ", "x", "X", ",", u"\xe9", "\n", "a.b", ".abc.community",
            "abcXcom", ":", "1", ".corp.example.org", "corp"]
     for _ in range(n):
-        fq = rng.choice(["web1.abc.com", "db.corp.example.org", "n.x", "h.a-b.io"])
-        s = gen(a_h, 10)
+        fq = rng.choice(["web1.abc.com", "db.corp.example.org", "n.x", "h.a-b.io"]) if rng.random() < 0.4 else g_fqdn(rng)
+        if "." not in fq:
+            fq += ".lan"
+        dm = system_domain(fq)
+        s = gen(a_h + ["." + dm, "." + dm, "db07." + dm, "a.b." + dm, dm], 10)
         h = Hostname(fq)
         if s:
             h.parse_line(s)
         found = [m["original"] for m in h.mapping()][1:]     # first-discovery order, the system itself excluded
-        lines.append("host\t%s\t%s" % (enc(fq.split(".", 1)[1]), enc(s)))
+        lines.append("host\t%s\t%s" % (enc(dm), enc(s)))       # the domain: derived here, not read from the object
         impl.append(items(found))
         cases.append(("host", fq, s))
     a_p = ["password", "password", "pass", "word", "_hash", "s", ":", "=", "==", " ", "  ", "\t", "\"", "--md5", "--md", "5",
@@ -899,6 +924,11 @@ def recogniser_streams(chk, n):
 def classify(case, r):
     cfg, call = case["cfg"], case["call"]
     tags = ["route:" + call["route"], "obfuscate:%d" % cfg["obfuscate"]]
+    if Oracle.host_active(cfg, set(call["no_obfuscate"] or [])):
+        tags.append("hostname-on:fqdn-labels:%d" % min(cfg["fqdn"].count(".") + 1, 4))
+        dom = system_domain(cfg["fqdn"])
+        if dom and any(t != cfg["fqdn"] for l in case["lines"] for t in host_tokens(l, cfg["fqdn"])):
+            tags.append("hostname-on:other-host-of-domain:labels:%d" % min(cfg["fqdn"].count(".") + 1, 4))
     if call["width"]:
         tags.append("width")
     if call["allowlist"] is not None:
